@@ -48,7 +48,8 @@ def recipe(c: Check):
              "Manager (raw res/retContent/err triples incl. nil content), (2) real HTTP plugins (NewHTTPPluginOptions) against "
              "stub HTTP servers on 127.0.15.x (non-200 with an acceptable body, RST, close without reply, truncated body, "
              "garbage / mistyped / trailing JSON, reject, unchange with content, unchange=false with modified / absent / null "
-             "content, bodies {} and null), (3) an in-process frps with HTTP plugins and a scripted peer: the gated operation's "
+             "content, bodies {} and null), (3) an in-process frps started like cmd/frps from a TOML/JSON configuration file (LoadServerConfig incl. Complete, validation, "
+             "NewService) whose httpPlugins entries have arbitrary names (omitted, empty, duplicates), and a scripted peer: the gated operation's "
              "visible effect (LoginResp, NewProxyResp, Pong, StartWorkConn, user connection served) must be the one derived "
              "from the chain's returned content, and CloseProxy notifications on explicit close and session end. Compared with "
              "the IR interpreter over today's translated tables and with the chain specification: manager answer (content "
